@@ -170,6 +170,8 @@ HARNESS_FLAVOURS = {
     # C12: the library compiled with -fopenmp as always, linked against harness/omp_standin.cpp instead of libgomp
     "ompseq": ["-O1", "-g", "-DHARNESS_OMP_STANDIN"],
     "tsan": ["-O1", "-g", "-fsanitize=thread", "-DHARNESS_OMP_STANDIN"],
+    # ASan/UBSan with the stand-in runtime: team sizes and omp_get_max_threads() under control of the request line
+    "asanseq": ["-O1", "-g", "-fsanitize=address,undefined", "-fno-sanitize-recover=all", "-DHARNESS_EXACT", "-DHARNESS_OMP_STANDIN"],
 }
 
 
